@@ -340,11 +340,34 @@ func loadAll(c *mixCase) (*spec.Swagger, []*spec.Swagger, map[string]any, []map[
 	return p, ms, pj, mjs, true
 }
 
+// c17Check: one Mixin call checked against the reference model, then a second call on the same live primary
+// (fresh copies of the mixins, in reverse order) checked against the reference model applied to the result of the first:
+// the rules hold for every call, not only for the first one made in a process or on an object.
 func c17Check(c *mixCase, pol mcrt.Policy) (sig, what string, nontrivial bool, outcome string) {
 	p, ms, pj, mjs, ok := loadAll(c)
 	if !ok {
 		return "", "", false, ""
 	}
+	sig, what, nontrivial, outcome = c17Step(c, p, ms, pj, mjs, pol)
+	if sig != "" || outcome == "crash" || len(c.Mixins) == 0 {
+		return
+	}
+	rev := &mixCase{Primary: c.Primary}
+	for i := len(c.Mixins) - 1; i >= 0; i-- {
+		rev.Mixins = append(rev.Mixins, c.Mixins[i])
+	}
+	_, ms2, _, mjs2, ok := loadAll(rev)
+	if !ok {
+		return
+	}
+	pj2, _ := h.ToJSON(h.Marshal(p)).(map[string]any)
+	if sig2, what2, _, out2 := c17Step(rev, p, ms2, pj2, mjs2, pol); sig2 != "" {
+		return "second Mixin on the same primary: " + sig2, what2, nontrivial, outcome + out2
+	}
+	return
+}
+
+func c17Step(c *mixCase, p *spec.Swagger, ms []*spec.Swagger, pj map[string]any, mjs []map[string]any, pol mcrt.Policy) (sig, what string, nontrivial bool, outcome string) {
 	exp, expWarns := refmix(pj, mjs)
 	mcrt.Reset(pol, nil, h.DefaultHorizon)
 	var o h.Outcome
